@@ -123,7 +123,11 @@ func RunJobsUntil(job string, params []interface{}, perJob time.Duration, onResu
 	if nw > len(params) {
 		nw = len(params)
 	}
-	exe, _ := os.Executable()
+	// workers run the very binary of this process, even when bin/vcheck is rebuilt meanwhile
+	exe := fmt.Sprintf("/proc/%d/exe", os.Getpid())
+	if _, err := os.Stat(exe); err != nil {
+		exe, _ = os.Executable()
+	}
 	for w := 0; w < nw; w++ {
 		wg.Add(1)
 		go func() {
